@@ -83,6 +83,10 @@ CLAIMED = {
          "All strings up to a symbol bound after 'data:' plus structured and random cases are given to every borrowed and owned constructor (which must agree); accepted values must be valid URIs of the data shape (checked by the model before any scanning accessor runs), borrowed and owned parts/media_type/is_base_64_encoded/encoded_data/decoded_data must be identical and reassemble the text, and decoded data is compared with an independent RFC 4648 codec.",
          "Trusted: harness base64 codec (RFC 4648 vectors at start-up).",
          "DESIGN.md 5 C18"),
+ "C17": ("runtime observation of the compiler: generated crates with one macro invocation per literal; constants compared with the run-time parser, compile errors compared line by line with the RFC model",
+         "For each of uri!/uri_ref!/iri!/iri_ref!, hundreds (thousands in thorough) of literals - valid values, near-miss mutants, non-ASCII, characters needing Rust escapes - are written in random Rust spellings into two generated crates depending on /repo with the macros feature: the valid-set crate must compile and its binary must find every constant equal (bytes, parts, ==) to the value parsed at run time; for the invalid-set crate rustc must report an error on exactly the lines of the invalid literals.",
+         "Trusted: the RFC recogniser (to split valid from invalid), rustc's JSON diagnostics. Observes this toolchain only.",
+         "DESIGN.md 5 C17"),
 }
 
 PENDING = {}
